@@ -1,5 +1,5 @@
 (* Model of the oriented-box geometry of /repo (C08, used by C15):
-     src/utils/clipping.rs   is_inside, compute_intersection, sutherland_hodgman_clip
+     src/utils/clipping.rs   is_inside, compute_intersection (parametric, commit 04617aa), sutherland_hodgman_clip
      src/utils/bbox.rs       From<&Universal2DBox> for Polygon<f64>, Universal2DBox::{intersection,too_far,get_radius,area},
                              BoundingBox::intersection, the two IoU functions (calculate_metric_object)
      geo::Area::unsigned_area of the clipped ring (shoelace)
@@ -38,8 +38,21 @@ Definition cross (p1 p2 q : pt) : F :=
 
 Definition is_inside (q p1 p2 : pt) : bool := cross p1 p2 q <=? 0.
 
-(* clipping.rs:17-38 (line through cp1,cp2 with line through s,e) *)
+(* clipping.rs compute_intersection (since the fix: commit 04617aa): the crossing of the segment cp1-cp2 with the line
+   through s and e, computed along the segment.  The closure [side] of the Rust code is literally [cross s e]:
+     let side = |q| (e.x - s.x) * (q.y - s.y) - (e.y - s.y) * (q.x - s.x);
+     let t = (d1 / (d1 - d2)).clamp(0.0, 1.0);   Coord { x: cp1.x + t * (cp2.x - cp1.x), ... }            *)
+Definition clamp01 (t : F) : F := if t <? 0 then 0 else if 1 <? t then 1 else t.
+
 Definition compute_intersection (cp1 cp2 s e : pt) : pt :=
+  let d1 := cross s e cp1 in
+  let d2 := cross s e cp2 in
+  let t := clamp01 (d1 / (d1 - d2)) in
+  (px cp1 + t * (px cp2 - px cp1), py cp1 + t * (py cp2 - py cp1)).
+
+(* the line-line formula the code used before the fix (kept as documentation: GeomProofs.compute_intersection_lines_eq
+   shows it is the same point in exact arithmetic whenever the clipper calls it) *)
+Definition compute_intersection_lines (cp1 cp2 s e : pt) : pt :=
   let dcx := px cp1 - px cp2 in
   let dcy := py cp1 - py cp2 in
   let dpx := px s - px e in
